@@ -5,6 +5,8 @@ import (
 	"fmt"
 	"os"
 	"runtime"
+	"runtime/debug"
+	"runtime/pprof"
 	"strconv"
 	"strings"
 	"time"
@@ -14,6 +16,7 @@ import (
 )
 
 func main() {
+	debug.SetGCPercent(1000)
 	if len(os.Args) < 2 {
 		fmt.Fprintln(os.Stderr, "usage: symgo run|check|selftest ...")
 		os.Exit(2)
@@ -60,7 +63,13 @@ func cmdRun(args []string) {
 	timeout := fs.Int("solver-ms", 5000, "solver timeout")
 	params := paramFlag{}
 	fs.Var(params, "p", "harness parameter k=v")
+	prof := fs.String("cpuprofile", "", "write cpu profile")
 	fs.Parse(args)
+	if *prof != "" {
+		f, _ := os.Create(*prof)
+		pprof.StartCPUProfile(f)
+		defer pprof.StopCPUProfile()
+	}
 
 	t0 := time.Now()
 	prog, err := interp.Load(*repo, *harness)
@@ -96,6 +105,11 @@ func printResult(res *interp.HarnessResult) {
 		fmt.Printf("ENGINE-ERROR x%d: %s\n", n, k)
 	}
 	fmt.Printf("covers: %v expected: %v\n", res.Covers, res.Expected)
+	for _, sm := range res.Samples {
+		if len(sm.Notes) > 0 {
+			fmt.Printf("notes: %v\n", sm.Notes)
+		}
+	}
 	for _, v := range res.Violations {
 		fmt.Printf("VIOLATION-CANDIDATE kind=%s label=%s diag=%v msg=%s\n   nondet=%v\n", v.Kind, v.Label, v.Diag, v.Msg, v.Nondet)
 	}
